@@ -24,3 +24,13 @@ BUILT['C03'] = (
     "and satisfy exp(L)=T, log(exp S)=S for |w|<=pi-1e-6; rotation magnitudes sweep 1e-12..pi log-uniformly from both ends; "
     "the identity, pure-translation, near-half-turn and general branches of trlog are required line-reach targets",
     NOTE, "DESIGN.md 4 C03")
+BUILT['C04'] = (
+    "multi-representation evaluator: one random expression tree evaluated independently by the real operators in every "
+    "representation and mapped back to a matrix by reference formulas; back-conversion, shared-constructor, double-cover "
+    "and embedding monitors",
+    "trees over {*, inv} are evaluated in SO3/SE3/UnitQuaternion/Twist3/UnitDualQuaternion (rotation-only in all five, "
+    "rigid in three) and SO2/SE2/Twist2; every node must equal the longdouble reference evaluation to 1e-6 max(1,|t|), which "
+    "decides round trips and both homomorphism equations at once; every shared named constructor is compared across classes "
+    "with all options; q/-q equality and the three embeddings (single- and multi-valued) are checked on points; all three "
+    "largest-diagonal branches of r2q are required line-reach targets",
+    NOTE, "DESIGN.md 4 C04")
